@@ -384,8 +384,8 @@ func c20Stats(nsh, bound int) *explore.Scenario {
 			}
 			var plan []outcome
 			for _, k := range []string{"Unary", "Bidi", "SStream", "CStream"} {
-				for _, o := range []string{"ok", "herr", "herr-eof", "herr-wrapped-eof", "herr-plain", "herr-canceled", "herr-ok-coded", "cancel1", "cancel3", "deadline", "openfail", "reset", "lateempty", "sendfail"} {
-					if k == "Unary" && (o == "reset" || o == "lateempty" || o == "sendfail") {
+				for _, o := range []string{"ok", "herr", "herr-eof", "herr-wrapped-eof", "herr-plain", "herr-canceled", "herr-ok-coded", "cancel1", "cancel3", "deadline", "openfail", "reset", "lateempty", "sendfail", "sendbad"} {
+					if k == "Unary" && (o == "reset" || o == "lateempty" || o == "sendfail" || o == "sendbad") {
 						continue
 					}
 					if bound > 0 && (k == "SStream" || k == "CStream" || (k == "Unary" && o != "cancel1" && o != "ok")) {
@@ -412,6 +412,17 @@ func c20Stats(nsh, bound int) *explore.Scenario {
 					serverIdx[i] = serverSeen
 					serverOK[serverSeen] = r.HReturned && r.HRet == nil
 					serverSeen++
+				}
+			}
+			// every RPC above has ended for its caller (completed, failed, cancelled, abandoned after a refused
+			// send): its End has been delivered by now - not only when the connection ends
+			for _, sh := range csh {
+				for tag := 1; tag <= sh.next; tag++ {
+					ev := sh.events[tag]
+					if len(ev) > 0 && !strings.HasPrefix(ev[len(ev)-1], "End") {
+						o := plan[tag-1]
+						vsched.Fail(fam+"|end-missing", "client stats handler %s, RPC %d (%s %s): the RPC is over for its caller but no End has been delivered while the connection is alive: %v", sh.name, tag, o.kind, o.what, ev)
+					}
 				}
 			}
 			// transport failure with an RPC in flight
